@@ -96,7 +96,12 @@ def main(tier: str) -> int:
         if max(lens_) == target:
             big_streams.append((f"frame-payload-{target}", d_))
     for label, data in big_streams:
-        want_big = impl.parse("generic", data, "flat")
+        try:
+            want_big = impl.parse("generic", data, "flat")
+        except Exception as ex:  # noqa: BLE001
+            run.violation({"source": "BytesIO", "integ": "generic", "clause": "raised", "stream": label},
+                          f"{label}: pyjelly's own output does not parse even all at once from BytesIO: {type(ex).__name__}: {str(ex)[:80]}", {"stream": label})
+            continue
         scheds = [[], [8192], [8191, 1], [4096, 4096, 1, 2, 3], [100] * 30 + [1, 2, 3]] + [[rnd.choice([1, 2, 3, 7, 100, 4096, 8191, 8192, 8193, 65536]) for _ in range(40)] for _ in range(6)]
         for sched in scheds:
             for then in (None, 8192, 1000):
@@ -120,8 +125,13 @@ def main(tier: str) -> int:
                 except Exception as ex:  # noqa: BLE001
                     run.violation({"source": kind, "integ": "generic", "clause": "raised", "stream": label}, f"{label} from {kind}: {type(ex).__name__}: {str(ex)[:80]}", {"stream": label})
     for label, data, delim in streams:
-        want = {integ: impl.parse(integ, data, "flat") for integ in ("generic", "rdflib")}
-        wantg = impl.parse("generic", data, "grouped") if delim else None
+        try:
+            want = {integ: impl.parse(integ, data, "flat") for integ in ("generic", "rdflib")}
+            wantg = impl.parse("generic", data, "grouped") if delim else None
+        except Exception as ex:  # noqa: BLE001
+            run.violation({"source": "BytesIO", "integ": "both", "clause": "raised", "stream": label},
+                          f"{label}: the stream does not parse even all at once from BytesIO: {type(ex).__name__}: {str(ex)[:80]}", {"stream": label, "hex": data.hex()[:2000]})
+            continue
         for sched in sched_list:
             if sum(sched) > len(data) + 5:
                 continue
